@@ -532,6 +532,22 @@ impl<'a> From<bool> for DataOperator<'a> {
     }
 }
 
+/// Formats a float so that the STAMQL parser reads it back as a float: always with a decimal point
+fn float_to_string(n: f64) -> Result<String, StamError> {
+    if !n.is_finite() {
+        return Err(StamError::QuerySyntaxError(
+            format!("There is no query syntax for the non-finite float {}", n),
+            "DataOperator::to_string()",
+        ));
+    }
+    let s = format!("{}", n);
+    if s.contains('.') {
+        Ok(s)
+    } else {
+        Ok(format!("{}.0", s))
+    }
+}
+
 impl<'a> DataOperator<'a> {
     /// Turns the DataOperator to a string, compatible with STAMQL
     pub fn to_string(&self) -> Result<String, StamError> {
@@ -558,15 +574,15 @@ impl<'a> DataOperator<'a> {
                 )),
             },
             DataOperator::EqualsInt(n) => Ok(format!("= {}", n)),
-            DataOperator::EqualsFloat(n) => Ok(format!("= {}", n)),
+            DataOperator::EqualsFloat(n) => Ok(format!("= {}", float_to_string(*n)?)),
             DataOperator::GreaterThan(n) => Ok(format!("> {}", n)),
             DataOperator::GreaterThanOrEqual(n) => Ok(format!(">= {}", n)),
             DataOperator::LessThan(n) => Ok(format!("< {}", n)),
             DataOperator::LessThanOrEqual(n) => Ok(format!("<= {}", n)),
-            DataOperator::GreaterThanFloat(n) => Ok(format!("> {}", n)),
-            DataOperator::GreaterThanOrEqualFloat(n) => Ok(format!(">= {}", n)),
-            DataOperator::LessThanOrEqualFloat(n) => Ok(format!("<= {}", n)),
-            DataOperator::LessThanFloat(n) => Ok(format!("< {}", n)),
+            DataOperator::GreaterThanFloat(n) => Ok(format!("> {}", float_to_string(*n)?)),
+            DataOperator::GreaterThanOrEqualFloat(n) => Ok(format!(">= {}", float_to_string(*n)?)),
+            DataOperator::LessThanOrEqualFloat(n) => Ok(format!("<= {}", float_to_string(*n)?)),
+            DataOperator::LessThanFloat(n) => Ok(format!("< {}", float_to_string(*n)?)),
             DataOperator::ExactDatetime(d) => Ok(format!("= {}", d.to_rfc3339())),
             DataOperator::AfterDatetime(d) => Ok(format!("> {}", d.to_rfc3339())),
             DataOperator::AtOrAfterDatetime(d) => Ok(format!(">= {}", d.to_rfc3339())),
